@@ -67,6 +67,8 @@ WRITERS = [
     ["->", ["==", H0, T("1")], ["=", ["v", "w"], [], H1]],
     ["->", ["==", H0, T("1")], ["=", ["v", "p2"], [], fn("pop", [], [T("s")])]],
     ["->", ["==", H1, T("9")], ["=", ["v", "p3"], [], fn("pop", [], [T("s")])]],
+    ["=", ["v", "zz"], [], fn("subtract", [], [H1, H1])],
+    ["=", ["v", "ff"], [], fn("no")],
     ["=", ["v", "rf"], [], ["v", "cb", "False"]],
     ["=", ["v", "rt"], [], ["v", "cb", "True"]],
     fn("every", ["ev"], [H0, T(2)]),
